@@ -182,7 +182,8 @@ theorem wfHooks_remove_floor_division : WfHooks RemoveFloorDivision.processor wh
     | cassign op t v =>
       cases op <;> first
         | exact hw
-        | exact (wlevel_all RemoveCompoundAssign.processor true wfHooks_remove_compound_assignment _).stmt _ _ hw
+        | (rw [RemoveFloorDivision.processStatement_idiv]
+           exact (wlevel_all RemoveCompoundAssign.processor true wfHooks_remove_compound_assignment _).stmt _ _ hw)
     | _ => exact hw
   stmtNode := fun _ _ h => h
   afterStmtNode := fun _ _ h => h
